@@ -132,6 +132,8 @@ func VerifH_C15_liga() {
 	verifReach("ligatures")
 	lookups := info.FindLookups(language.MustParse("en"), gtab.GsubDefaultFeatures)
 	verifAssert(len(lookups) == 1 && lookups[0] == 0, "the liga feature is enabled by default")
+	off := info.FindLookups(language.MustParse("en"), map[string]bool{"liga": false})
+	verifAssert(len(off) == 0, "the caller's feature switches are honoured: ligatures can be switched off")
 	// shape "ffi": the longest ligature the font contains wins
 	seq := []glyph.Info{{GID: 1, Text: []rune{'f'}}, {GID: 1, Text: []rune{'f'}}, {GID: 2, Text: []rune{'i'}}}
 	out := gtab.NewContext(info.LookupList, nil, lookups).Apply(seq)
